@@ -28,6 +28,7 @@ type PropConfig struct {
 	Bounded    []string `json:"bounded"`
 	DesignRef  string   `json:"design_ref"`
 	Lemmas     []string `json:"lemmas"`
+	JSONSweep  bool     `json:"jsonable_sweep"`
 }
 
 type KnownFinding struct {
@@ -160,6 +161,13 @@ func cmdCheck(args []string) {
 			engineErrs = append(engineErrs, r.Short+": "+e)
 		}
 		all = append(all, r.Obls...)
+	}
+	var dynSites []string
+	if cfg.JSONSweep {
+		var jo []*Obligation
+		jo, dynSites = L.jsonableSweep()
+		all = append(all, jo...)
+		cfg.Assumes = append(cfg.Assumes, fmt.Sprintf("jsonable sweep (back end: go/types, structural): %d store sites decided by static type; %d sites pass an interface-typed value whose dynamic type is not decided here (assumed serialisable): %s", len(jo), len(dynSites), strings.Join(firstN(dynSites, 12), "; ")))
 	}
 	dischargeAll(pending(all), opt)
 
@@ -456,4 +464,11 @@ var globalAssumptions = []string{
 	"A5 integers are exact 64/32/16/8-bit vectors (no mathematical-integer abstraction)",
 	"A6 linux/amd64",
 	"panics: a disabled safety kind is assumed not to fire (path ends at the panic); enabled kinds are proved",
+}
+
+func firstN(s []string, n int) []string {
+	if len(s) > n {
+		return append(append([]string{}, s[:n]...), fmt.Sprintf("... and %d more", len(s)-n))
+	}
+	return s
 }
